@@ -198,7 +198,7 @@ def replay(payload):
 def run(tier, seed):
     from props import C01, C09, C11
     res = Result("C04")
-    res.functions = ["xeofs.single.eof:EOF._transform_algorithm", "xeofs.cross.cpcca:CPCCA._transform_algorithm",
+    res.functions = ["xeofs.cross.base_model_cross_set:BaseModelCrossSet public methods (composition of preprocessor/PCA/whitener per field)", "xeofs.single.eof:EOF._transform_algorithm", "xeofs.cross.cpcca:CPCCA._transform_algorithm",
                      "xeofs.single.eof_rotator:EOFRotator._transform_algorithm", "EOFRotator._compute_rot_mat_inv_trans",
                      "EOFRotator._sort_by_variance", "xeofs.single.eof:EOF._fit_algorithm", "xeofs.cross.cpcca:CPCCA._fit_algorithm",
                      "EOFRotator._fit_algorithm"]
@@ -208,6 +208,8 @@ def run(tier, seed):
     res.trusted = ["CPython on proxies", "vf/sym normaliser", "z3"]
     agg = Agg(res, "C04")
     deductive(res, agg)
+    from vf.contracts import crosschain
+    crosschain.obligations(agg, ("fit", "transform"))      # cross-set public methods: every field through its own chain, in order
     agg.flush()
     run_bounded(res, tier, seed)
     return res
